@@ -28,15 +28,17 @@ TRUSTED = [
     'filters/i18n.py (Translator.__call__ / extract SUB handling, i18n:domain/comment/ctxt) as a hand-written Lean heap '
     'machine; tied by footprint snapshots and step-by-step comparison on generated templates',
     'the step model covers a fragment (py:match by one element name only, no select(), no i18n:msg/choose, no inlined includes, '
-    'no <?python ?>, identity catalogue; interpolated attribute values and py:attrs are inside); outside it only the footprint '
-    'claim and the oracle on the real code are checked',
+    'no <?python ?> other than one generator function, identity catalogue; interpolated attribute values, py:attrs and lazily '
+    'evaluated nested scopes -- generator expression / map(lambda) consumed by py:for or ${...}, generator function of a code '
+    'block, lambda bound by py:with -- are inside); outside it only the footprint claim and the oracle on the real code are checked',
     'thread part: interleaving model at next() granularity (theorems) and line granularity (prepare race, settrace '
     'scheduler); byte-code level preemption, the GIL and atomicity of built-in container operations are assumed',
     'pickle, CPython generators, list iterators, dict ordering: exercised, not modelled',
-    'state outside the template object and the contexts (globals dicts of eval/exec read by nested scopes: generator '
-    'expressions, lambdas, functions of <?python ?> blocks; closure state of path tests of multi-step / positional '
-    'py:match paths): not modelled (the step model answers unmodelled / other), judged by the oracle alone '
-    '(interleaved, threaded and repeated renders against the render alone)',
+    'state outside the template object and the contexts: the globals dict eval/exec hand to nested scopes is not an object of '
+    'the model -- what lazily running code reads through it (the render\'s own Context at that next()) is, hand-written, tied '
+    'by the step comparison on interleaved renders suspended inside such scopes (counters model:lazy-suspended-*); the closure '
+    'state of path tests of multi-step / positional py:match paths is not modelled (`other` directive), judged by the oracle '
+    'alone (interleaved, threaded and repeated renders against the render alone)',
 ]
 ASSUMPTIONS = [
     'context data objects are not shared between renders (each render gets fresh objects built from the same spec)',
